@@ -21,7 +21,7 @@ META = {
     "functions_encoded": ["engine::see::{see, piece_value}", "chess::movegen::attackers::all_attackers_of", "chess::board::Board::{piece_at, occupancy, occupancy_for, pieces_of_kind, "
                           "all_diagonal_sliders, all_orthogonal_sliders}", "engine::eval::Eval arithmetic"],
     "stubs": ["six table look-ups -> geometry (C07)"],
-    "bounds": ["any valid position with at most N men (quick 6, thorough 7), any legal non-en-passant capture incl. capturing promotions; exchange loop unwound N+1", "case split (one SAT query each): target square x side to move; quick: d5 + 2 seeded squares + d4 for black; thorough: all 64 x 2"],
+    "bounds": ["three-clause harness: any valid position with at most N men (quick 5, thorough 7); swap-list harness: at most one man of each kind per colour, i.e. up to 10 men (no further bound), any legal non-en-passant capture incl. capturing promotions; exchange loop unwound N+1", "case split (one SAT query each): target square x side to move; quick: d5 + 2 seeded squares + d4 for black; thorough: all 64 x 2"],
     "outside": ["positions with more men than the bound (longer exchanges)", "en-passant captures (excluded by the property)"],
     "assumptions": ["swap-list oracle in harness/verif/c20.rs uses the same piece values (100/300/300/500/900/10000)"],
     "trusted_base": ["kani 0.68.0", "cbmc 6.11.0", "cadical", "C07"],
@@ -64,6 +64,10 @@ def jobs(tier, seed):
         for kind in ("basic", "swap"):
             # the three-clause harness runs see() twice (mirror) and is ~2.5x dearer: one man fewer in quick
             nn = n - 1 if (kind == "basic" and tier != "thorough" and not os.environ.get("C20_MEN")) else n
+            # the swap-list comparison restricts every kind to one man per colour (at most 10 men on the board); with the target square fixed its cost
+            # barely depends on the men bound (measured: 6 men 200-600 s, 8 men 327 s, 10 men 398 s), so it runs without an effective bound
+            if kind == "swap" and not os.environ.get("C20_MEN"):
+                nn = 10
             name, src = inst(kind, nn, d, s_)
             js.append(Job(name, f"SEE {kind}: all positions of <= {nn} men, all non-ep captures on {SQN(d)} by {'white' if s_ == 0 else 'black'}", gen=src, timeout=t, mem_gb=24,
                           checks="functional", witness=False, params={"max_men": nn, "target": SQN(d), "white_to_move": s_ == 0}, min_covers=2))
